@@ -134,6 +134,13 @@ class SDict:
         return f"SDict<{self.k},{self.v}>"
 
 
+class SDefaultDict(SDict):
+    """collections.defaultdict with a symbolic key set, as a TOTAL map: a key that was never stored reads as the default value
+    (the component arrays start as constant arrays of the default).  Only subscripting is supported; anything that depends on
+    which keys exist (len, iteration, `in`) is rejected as unsupported."""
+    __slots__ = ()
+
+
 class SSet:
     __slots__ = ("k", "dom")
 
@@ -459,6 +466,22 @@ class TDict(T):
         va = self.v.unflat([c[x] for c in a.comps])
         vb = self.v.unflat([c[x] for c in b.comps])
         return z3.ForAll([x], z3.And(a.dom[x] == b.dom[x], z3.Implies(a.dom[x], self.v.eq(va, vb))))
+
+
+class TDefaultDict(TDict):
+    def unflat(self, terms):
+        return SDefaultDict(self.k, self.v, terms[0], terms[1:])
+
+    def wf(self, v):
+        ks = key_sort_of(self.k)
+        x = z3.FreshConst(ks, "k")
+        facts = self.v.wf(self.v.unflat([c[x] for c in v.comps]))
+        return [z3.ForAll([x], f) for f in facts]
+
+
+def TGraph(attrs):
+    """networkx.Graph (and subclasses) as a record: node table and a symmetric adjacency relation over node pairs"""
+    return TRec("nx.Graph", nodes=TDict(TNode, attrs), adj=TSet(TTuple(TNode, TNode)))
 
 
 class TSet(T):
